@@ -102,6 +102,14 @@ impl<P: ConnectionProvider> NameServer<P> {
         }
     }
 
+    /// Verification hook: pin the (otherwise randomly initialised) smoothed RTT of this server.
+    #[cfg(feature = "verif-hooks")]
+    pub fn verif_set_srtt(&self, micros: u32) {
+        self.server_srtt
+            .srtt_microseconds
+            .store(micros, Ordering::Release);
+    }
+
     // TODO: there needs to be some way of customizing the connection based on EDNS options from the server side...
     pub(crate) async fn send(
         self: Arc<Self>,
@@ -143,9 +151,13 @@ impl<P: ConnectionProvider> NameServer<P> {
             };
             #[cfg(feature = "metrics")]
             self.resolver_metrics.increment_outgoing_query(&protocol);
+            #[cfg(feature = "verif-hooks")]
+            use crate::proto::verif::Instant;
             let now = Instant::now();
             let response = handle.send(request.clone()).first_answer().await;
             let rtt = now.elapsed();
+            #[cfg(feature = "verif-hooks")]
+            let rtt = Instant::now().saturating_duration_since(now);
 
             match response {
                 Ok(response) => {
